@@ -195,6 +195,13 @@ def run_rules(prop, tier, repo=None, cache=None, target=None):
     facts = _FACTS_CACHE[k]
     ctx = Ctx(prop, tier, facts, repo=repo)
     try:
+        if not hasattr(facts, "twins"):
+            from . import common
+            mirlib.TWINS = {}
+            facts.twins = common.find_twins(facts)
+        mirlib.TWINS = dict(facts.twins)
+        if facts.twins:
+            ctx.sample({"twins_of_known_functions": facts.twins})
         mod.check(ctx)
         # premise of every property: the facts come from the debug profile; debug-only code must be effect-free
         from . import profile
